@@ -2,6 +2,7 @@ import Driver.Util
 import RQ.ModelF.Cost
 import Driver.CmdData
 import Driver.CmdSched
+import Driver.CmdExec
 /-! Command table of the replay driver (model instantiated at `Float`). -/
 namespace Driver
 open RQ.F
@@ -39,6 +40,9 @@ def dispatch (toks : List String) : String :=
   | some r => r
   | none =>
   match cmdSched toks with
+  | some r => r
+  | none =>
+  match cmdExec toks with
   | some r => r
   | none => "ERR unknown-command"
 
